@@ -74,7 +74,13 @@ macro_rules! from_hex {
     // Uses Deserialize trait to auto-generate one
     ($name:ident) => {
         from_hex!($name, hex_str, {
-            let mut raw = Deserializer::from(std::io::Cursor::new(hex::decode(hex_str).unwrap()));
+            let bytes = hex::decode(hex_str).map_err(|e| {
+                DeserializeError::new(
+                    "from_hex",
+                    DeserializeFailure::CBOR(cbor_event::Error::CustomError(e.to_string())),
+                )
+            })?;
+            let mut raw = Deserializer::from(std::io::Cursor::new(bytes));
             Self::deserialize(&mut raw)
         });
     };
